@@ -8,6 +8,9 @@ theorem tie_noShardsSegCap : noShardsSegCap = 18 := by decide
 theorem tie_log2MaxShards : log2MaxShards = 16 := by decide
 theorem tie_dupRetries : dupRetries = 3 := by decide
 theorem tie_localDupRetries : localDupRetries = 2 := by decide
+/-- the bound of the fix of D34 (`max_shard_count >= 32` in `build_loop`); used by C17's
+`heavy_key_gives_duplicate_key_after_33_attempts` and `build_loop_bound_38` -/
+theorem tie_maxShardTooBigRetries : maxShardTooBigRetries = 32 := by decide
 theorem tie_maxNoLocalSigCheckLog2 : maxNoLocalSigCheckLog2 = 33 := by decide
 theorem tie_maxShardSlack : maxShardSlackNum = 101 ∧ maxShardSlackDen = 100 := by decide
 theorem tie_cSmall : cSmallNum = 123 ∧ cSmallDen = 100 := by decide
